@@ -148,7 +148,14 @@ class BBAN(common.Base):
                 "Branch code differs from the branch part of the combined bank code"
             )
 
-        checksum = compute_national_checksum(country_code, components)
+        try:
+            checksum = compute_national_checksum(country_code, components)
+        except exceptions.SchwiftyException:
+            raise
+        except (ValueError, KeyError) as e:
+            raise exceptions.InvalidStructure(
+                f"Invalid characters in the BBAN components of {country_code}"
+            ) from e
         if checksum:
             components[Component.NATIONAL_CHECKSUM_DIGITS] = checksum
 
